@@ -1,0 +1,25 @@
+//go:build verif
+
+// Contracts checked by /verif/gvc (contract-based deductive verification).
+// This file contains comments only; it is compiled only under the "verif" build tag.
+
+package retained
+
+// Interface contract of retained.Store: the abstract view $msg maps a topic name to the message kept for
+// it (nil: none). $ops counts the mutating calls, so callers can state "the store was not touched".
+
+//@ ghost field (Store).msg string -> *gmqtt.Message
+//@ ghost field (Store).ops int
+
+//@ func (Store).AddOrReplace
+//@ params s, message
+//@ requires message != nil
+//@ modifies ghost(s.$msg), ghost(s.$ops)
+//@ ensures s.$ops == old(s.$ops) + 1
+//@ ensures forall t string :: s.$msg[t] == (t == message.Topic ? message : old(s.$msg[t]))
+
+//@ func (Store).Remove
+//@ params s, topicName
+//@ modifies ghost(s.$msg), ghost(s.$ops)
+//@ ensures s.$ops == old(s.$ops) + 1
+//@ ensures forall t string :: s.$msg[t] == (t == topicName ? nil : old(s.$msg[t]))
